@@ -140,6 +140,7 @@ type Style struct {
 	Comments bool // YAML: comments and blank lines
 	Quote    int  // YAML strings: 0 = plain where safe else double, 1 = always double, 2 = single where possible, 3 = plain wherever an independent loader reads the same string back
 	Anchors  bool // YAML: anchors + aliases for repeated subtrees
+	Literal  bool // YAML block style: multi-line and JSON-looking strings as literal block scalars (|, |-, |+)
 }
 
 var Styles = []Style{
@@ -152,6 +153,7 @@ var Styles = []Style{
 	{Name: "yaml-block2-comments-single", YAML: true, Indent: 2, Comments: true, Quote: 2},
 	{Name: "yaml-block2-anchors", YAML: true, Indent: 2, Anchors: true},
 	{Name: "yaml-block2-plain", YAML: true, Indent: 2, Quote: 3},
+	{Name: "yaml-block2-literal", YAML: true, Indent: 2, Literal: true},
 }
 
 func StyleByName(n string) Style {
@@ -644,6 +646,35 @@ func (e *emitter) block(v *V, indent int, inline bool) {
 			e.w(pad)
 		}
 		e.start(v)
+		if e.st.Literal && inline && v.Kind == jsonv.String && literalOK(v.Str) {
+			// literal block scalar: header after "key: " / "- ", content lines indented below the key
+			body, chomp := v.Str, "-"
+			switch {
+			case strings.HasSuffix(body, "\n\n"):
+				chomp = "+"
+			case strings.HasSuffix(body, "\n"):
+				chomp = ""
+			}
+			lines := strings.Split(strings.TrimSuffix(body, "\n"), "\n")
+			if chomp == "+" {
+				lines = strings.Split(body, "\n")
+				lines = lines[:len(lines)-1]
+			}
+			cpad := pad
+			if cpad == "" {
+				cpad = "  "
+			}
+			e.w("|" + chomp)
+			for _, l := range lines {
+				e.w("\n")
+				if l != "" {
+					e.w(cpad + l)
+				}
+			}
+			e.end(v)
+			e.w("\n")
+			return
+		}
 		e.scalarYAML(v)
 		e.end(v)
 		if e.st.Comments && e.line%11 == 0 {
@@ -651,6 +682,29 @@ func (e *emitter) block(v *V, indent int, inline bool) {
 		}
 		e.w("\n")
 	}
+}
+
+// literalOK: strings this emitter writes as literal block scalars - several lines, or text that looks like a JSON
+// object or array - and that a literal block can carry unchanged (every re-spelling is parsed back and compared by its
+// user anyway).
+func literalOK(s string) bool {
+	if s == "" || s[0] == ' ' || s[0] == '\n' || s[0] == '\t' {
+		return false
+	}
+	if !(strings.Contains(s, "\n") || s[0] == '{' || s[0] == '[') {
+		return false
+	}
+	for _, r := range s {
+		if (r < 0x20 && r != '\n') || r == 0x7f || r == 0x85 || r == 0x2028 || r == 0x2029 || r == 0xFEFF || r == utf8.RuneError {
+			return false
+		}
+	}
+	for _, l := range strings.Split(s, "\n") {
+		if strings.HasSuffix(l, " ") {
+			return false
+		}
+	}
+	return true
 }
 
 // valueAfterKey emits the value of a member or sequence entry; the cursor is right after ':' or '-'.
